@@ -39,6 +39,12 @@ class Ex:
         return None
 
     def z(self, node):
+        key = ast.unparse(node)
+        if key in self.env:
+            return self.env[key]
+        if isinstance(node, ast.Call) and isinstance(node.func, ast.Name) and node.func.id in ("max", "min") \
+                and len(node.args) == 2 and not node.keywords:
+            return "(Z.%s %s %s)" % (node.func.id, self.z(node.args[0]), self.z(node.args[1]))
         if isinstance(node, ast.Constant) and isinstance(node.value, bool):
             abort("boolean constant in integer position", node)
         if isinstance(node, ast.Constant) and isinstance(node.value, int):
